@@ -33,7 +33,10 @@ def run(name, props, tier="quick"):
     meta = json.load(open(os.path.join(dst, "meta.json")))
     assert subprocess.run(["git", "-C", "/repo", "status", "--porcelain"], capture_output=True,
                           text=True).stdout.strip() == "", "/repo not clean"
-    subprocess.run(["git", "-C", "/repo", "apply", os.path.join(dst, "patch.diff")], check=True)
+    patch = os.path.join(dst, "patch_on_fixed_tree.diff")
+    if not os.path.exists(patch):
+        patch = os.path.join(dst, "patch.diff")
+    subprocess.run(["git", "-C", "/repo", "apply", patch], check=True)
     try:
         for p in props:
             t0 = time.time()
